@@ -558,6 +558,9 @@ def r8_raw_chunk_untouched(ctx):
 
 from .c03 import r2_header_once as _header_once      # the BAM header is replayed once, before any record, also when the first table is empty
 
+from ..through_time import make_rule as _mk_tt
+_through_time = _mk_tt("C16")
+
 RULES = [
     ("C16-R1", r1_layout),
     ("C16-R2", r2_code_tables),
@@ -568,4 +571,5 @@ RULES = [
     ("C16-R7", r7_integer_width),
     ("C16-R8", r8_raw_chunk_untouched),
     ("C16-R9", _header_once),
+    ("C16-T1", _through_time),
 ]
